@@ -171,4 +171,41 @@ Proof.
     + intros a Ha. apply Hin. eapply Permutation_in; [apply Permutation_sym; exact P1 | exact Ha].
 Qed.
 
+(* ---- linear policies: a task refits the arm's own regression object ---------------------------------------------- *)
+Section LinOrder.
+Context {G : Type}.
+Notation lin := (@lin R A G).
+
+Definition obind {X Y} (f : X -> option Y) (o : option X) : option Y := match o with Some x => f x | None => None end.
+
+Theorem lin_fit_tasks_commute (s : lin) (g : G) a b ds rs (cx : mat (R:=R)) :
+  a <> b -> In a (akeys (l_models s)) -> In b (akeys (l_models s)) ->
+  obind (fun s1 => lin_fit_arm N aeqb s1 g b ds rs cx) (lin_fit_arm N aeqb s g a ds rs cx)
+  = obind (fun s1 => lin_fit_arm N aeqb s1 g a ds rs cx) (lin_fit_arm N aeqb s g b ds rs cx).
+Proof.
+  intros Hab Ha Hb. assert (Hba : b <> a) by (intros E; apply Hab; symmetry; exact E).
+  unfold lin_fit_arm.
+  destruct (arm_rows aeqb a ds rs cx) as [xa ya] eqn:Ea. destruct (arm_rows aeqb b ds rs cx) as [xb yb] eqn:Eb.
+  destruct xa as [|ra xa']; destruct xb as [|rb xb']; cbn [obind]; rewrite ?Ea, ?Eb; try reflexivity.
+  - (* only b has rows *)
+    destruct (negb _); [reflexivity|]. destruct (ridge_fit N _ _ _ _) as [m2|]; cbn [obind]; [|reflexivity].
+    cbn [set_models l_models l_nf]. rewrite ?Ea, ?Eb. reflexivity.
+  - (* only a has rows *)
+    destruct (negb _); [reflexivity|]. destruct (ridge_fit N _ _ _ _) as [m2|]; cbn [obind]; [|reflexivity].
+    cbn [set_models l_models l_nf]. rewrite ?Ea, ?Eb. reflexivity.
+  - (* both *)
+    destruct (negb (Nat.eqb (ncols (ra :: xa')) _)) eqn:Wa; destruct (negb (Nat.eqb (ncols (rb :: xb')) _)) eqn:Wb; cbn [obind]; try reflexivity.
+    + destruct (ridge_fit N _ _ (rb :: xb') yb) as [m2|]; cbn [obind]; [|reflexivity].
+      cbn [set_models l_models l_nf]. rewrite ?Ea, ?Eb, ?Wa, ?Wb. reflexivity.
+    + destruct (ridge_fit N _ _ (ra :: xa') ya) as [m2|]; cbn [obind]; [|reflexivity].
+      cbn [set_models l_models l_nf]. rewrite ?Ea, ?Eb, ?Wa, ?Wb. reflexivity.
+    + destruct (ridge_fit N _ _ (ra :: xa') ya) as [ma|] eqn:Fa; destruct (ridge_fit N _ _ (rb :: xb') yb) as [mb|] eqn:Fb; cbn [obind];
+        cbn [set_models l_models l_nf]; rewrite ?Ea, ?Eb, ?Wa, ?Wb;
+        rewrite ?(aget_d_aset_other _ _ _ _ _ Hab), ?(aget_d_aset_other _ _ _ _ _ Hba); rewrite ?Fa, ?Fb; try reflexivity.
+      unfold set_models. cbn [l_kind l_alpha l_eps l_l2 l_scale l_kf_ainv l_nf l_arms l_exp l_status l_models].
+      f_equal. f_equal. apply aset_comm; assumption.
+Qed.
+
+End LinOrder.
+
 End FitOrder.
